@@ -464,13 +464,34 @@ func getTbl(_ *Thread, su *Summarize, dir Dir) Row {
 		return nil
 	}
 	su.state = within
-	nr, _ := su.source.Nrows()
+	nr := exactNrows(su.source)
 	if nr == 0 {
 		return nil
 	}
 	var rb RecordBuilder
 	rb.Add(IntVal(nr))
 	return Row{DbRec{Record: rb.Build()}}
+}
+
+// exactNrows returns the current number of rows of a source
+// that knowExactNrows. It goes to the table because the Nrows
+// of the operators in between is set when the query is constructed,
+// which is too early for a cursor used with later transactions.
+func exactNrows(q Query) int {
+	switch q := q.(type) {
+	case *Extend:
+		return exactNrows(q.source)
+	case *Rename:
+		return exactNrows(q.source)
+	case *Sort:
+		return exactNrows(q.source)
+	case *View:
+		return exactNrows(q.source)
+	case *TempIndex:
+		return exactNrows(q.source)
+	}
+	nr, _ := q.Nrows()
+	return nr
 }
 
 func getIdx(th *Thread, su *Summarize, _ Dir) Row {
